@@ -245,6 +245,8 @@ def cbc_padding(chk: Check, repo: Repo) -> None:
 
 
 def run(chk: Check, repo: Repo) -> None:
+    from .common_rules import kdf_parameters
+    kdf_parameters(chk, repo, ["xknx.secure.security_primitives:derive_device_authentication_password", "xknx.secure.security_primitives:derive_user_password"])
     cbc_padding(chk, repo)
     wrap_unwrap(chk, repo)
     timer_notify(chk, repo)
